@@ -79,6 +79,12 @@ def o13(ctx):
         raise Unsupported("EmMotl(path) does not produce a table", cn)
     it2.run(q, [K("out.em")], {}, self_obj=obj)
     ev = _write_event(it2)
+    # every list is written: no way out of write_out before the library call (a file "that already holds this list" within a tolerance is not this list)
+    early = [e for e in it2.events if e.kind == "return" and e.name == q and it2.events.index(e) < it2.events.index(ev)]
+    ctx.count(1, {"returns before the library call": len(early)})
+    if early:
+        ctx.finding(q, "lists that are not written", "write_out leaves before calling the library writer on some path "
+                    f"({tm.show(early[0].guards[-1])[:80] if early[0].guards else 'unconditionally'}): the file then does not hold the list that was to be written", early[0].node, m)
     data = ev.arg(1, "data")
     if not isinstance(data, Arr):
         raise Unsupported("array passed to emfile.write not recognised", ev.node)
